@@ -406,6 +406,30 @@ theorem guard_calls_in_place :
        ("projectionItemFromValue", "projectionItem.Alias.Symbol", "validateCypherSymbol ; \"projection alias\""),
        ("Enter", "parameter.Symbol", "validateCypherSymbol ; \"parameter\"")] := by decide +kernel
 
+/-! ## (5) number formatting calls -/
+
+def numberCallOK (c : Nat × String × String × List String) : Bool :=
+  match c.2.2.1, c.2.2.2 with
+  | "strconv.FormatFloat", [_, fmt, prec, bits] => fmt == "'f'" && prec == "-1" && bits == "64"
+  | "strconv.FormatInt", [_, base] => base == "10"
+  | "strconv.FormatUint", [_, base] => base == "10"
+  | "strconv.FormatBool", [_] => true
+  | "fmt.Sprintf", _ => c.2.1 == "Write"     -- the panic message of OutputBuilder.Write, never written to the builder
+  | _, _ => false
+
+-- printed into the build log: the number-formatting calls that are not the modelled ones
+#eval formatCalls.filter (fun c => !numberCallOK c)
+
+/-- THE deterministic catch for number precision: every `strconv.FormatFloat` call of the formatter is
+`(v, 'f', -1, 64)` — positional notation (the token class the lexer theorem is about, `renderF`), shortest digits,
+at 64 bits (the premise of `number_literal_value_round_trip`) — and every integer is formatted in base 10. Seeded
+change C01-r4-1 (bitSize 32) turns this red. -/
+theorem format_number_calls : formatCalls.filter (fun c => !numberCallOK c) = [] := by decide +kernel
+
+theorem format_float_calls_present :
+    (formatCalls.filter (fun c => c.2.2.1 == "strconv.FormatFloat")).map (fun c => c.2.2.2.head?) =
+      [some "float64(typedValue)", some "typedValue"] := by decide +kernel
+
 /-! ## (4) option parameters of the entry points -/
 
 /-- parameters that are data, not options (name, type) -/
